@@ -483,7 +483,8 @@ def shrink(case):
 
 def distribution(cases, impl):
     d = {"histories": 0, "names": 0, "names_accepted": 0, "ops": {}, "results": {}, "end_phase": {}, "monitor": {},
-         "tamper": {}, "sig": {}, "fail_labels": {}, "crash_labels": {}, "with_obstacle": 0, "force": 0}
+         "tamper": {}, "sig": {}, "fail_labels_requested": {}, "crash_labels_requested": {}, "crash_labels_fired": {},
+         "with_obstacle": 0, "force": 0, "phases_seen": {}}
 
     def inc(m, k):
         m[k] = m.get(k, 0) + 1
@@ -509,9 +510,12 @@ def distribution(cases, impl):
                     d["with_obstacle"] += kv["ob"] != "-"
                 for l in kv["fail"].split(","):
                     if l != "-":
-                        inc(d["fail_labels"], l)
+                        inc(d["fail_labels_requested"], l)
                 if kv["crash"] != "-":
-                    inc(d["crash_labels"], kv["crash"])
+                    inc(d["crash_labels_requested"], kv["crash"])
+                    if f["res"] == "crash":
+                        inc(d["crash_labels_fired"], kv["crash"])
+            inc(d["phases_seen"], f.get("j", "?").split(":")[0])
         last = fields(segs(o or "")[-1]).get("j", "?")
         inc(d["end_phase"], last.split(":")[0])
     return d
